@@ -252,13 +252,28 @@ def rule_r4(prog, res) -> None:
         conf = prog.find_class("Configuration").methods["create"]
         res.violation("C15.R4", conf, conf.node, f"Configuration.create lacks {sorted(want - got)} / has extra {sorted(got - want)} compared with its parts", key_extra="combined-signature")
     # every keyword of the parts is forwarded by the combined create / modify
+    # (decided on the substituted calls of the symbolic store: parameters that travel through a grouping helper, a
+    # dict or a named tuple before they are spread into the part's create / modify are followed)
+    from .. import symx
+
     conf = prog.find_class("Configuration")
     for mname in ("create", "modify"):
         m = conf.methods[mname]
-        fwd = set()
-        for c in calls_in(m):
-            if isinstance(c.func, ast.Attribute) and c.func.attr in ("create", "modify"):
-                fwd |= {k.arg for k in c.keywords if k.arg}
+        own = set(_kwnames(m))
+        fwd = None
+        for p in symx.explore(prog, m, inline=symx.inline_private_helpers(prog, public={"create", "modify", "parse_cosmology", "from_dict", "to_dict"}), skip_tests=("logger",)):
+            if p.outcome == "raise":
+                continue
+            here = set()
+            for ev in p.calls():
+                if ev.callee in ("create", "modify") and isinstance(ev.expr.func, ast.Attribute):
+                    for k in ev.expr.keywords:
+                        if k.arg:
+                            here.add(k.arg)
+                            if isinstance(k.value, ast.Name) and k.value.id in own and k.value.id != k.arg and k.arg in own:
+                                res.violation("C15.R4", m, ev.node, f"parameters are forwarded under another name: {[(k.arg, k.value.id)]}", key_extra=f"forward-swapped-{k.arg}")
+            fwd = here if fwd is None else (fwd & here)
+        fwd = fwd or set()
         missing = (sigs["ScalesConfig"] | sigs["BinningConfig"]) - fwd
         if missing:
             res.violation("C15.R4", m, m.node, f"Configuration.{mname} accepts {sorted(missing)} but does not forward them to the part configurations: the parameter is silently ignored", key_extra=f"{mname}-not-forwarded-{'-'.join(sorted(missing))}")
